@@ -396,6 +396,17 @@ where
             let edge: &mut Edge<_, _>;
 
             if self.free_edge != EdgeIndex::end() {
+                // Check the endpoints before taking the slot off the free list, so that a
+                // failed call leaves the graph unchanged.
+                let missing = |n: NodeIndex<Ix>| self.g.nodes.get(n.index()).map(|x| x.weight.is_none());
+                match (missing(a), missing(b)) {
+                    (None, _) | (_, None) => {
+                        return Err(GraphError::NodeMissed(cmp::max(a.index(), b.index())))
+                    }
+                    (Some(true), _) => return Err(GraphError::NodeMissed(a.index())),
+                    (_, Some(true)) => return Err(GraphError::NodeMissed(b.index())),
+                    _ => {}
+                }
                 edge_idx = self.free_edge;
                 edge = &mut self.g.edges[edge_idx.index()];
                 let _old = replace(&mut edge.weight, Some(weight));
